@@ -517,4 +517,1035 @@ theorem strict_after (c : Codec) (L : Layout) (h : L.OK c) (hfresh : L.c1.contin
   exact Vorbis.decode_encode vendor cs c.framing tail hv hn hcs
 
 
+/-! ### every page `from_packets` builds holds a packet (real page sizes) -/
+
+/-- a page that holds nothing but a packet just begun takes the next chunk: its size is 27 or 28 bytes
+and the chunk needs at most 255 lacing values -/
+theorem fits_fresh (D : Nat) (hD : 28 < D) (p : Page) (hp : p.packets = [[]]) (data : Bytes) (hd : data.length ≤ 64770) :
+    (policy D).fits p data = true := by
+  have hsz : p.size ≤ 28 := by
+    have := lacing_length_le p
+    simp only [Page.size, hp, laceCount, List.map_cons, List.map_nil, List.length_nil, Nat.zero_div, List.sum_cons,
+      List.sum_nil] at this ⊢
+    omega
+  simp only [policy, Bool.and_eq_true, decide_eq_true_eq, hp, lacings, List.getLast?_singleton, List.dropLast_singleton,
+    laceCount_nil, List.length_nil, Nat.zero_add]
+  omega
+
+structure InvN (s : St) : Prop where
+  done : ∀ p ∈ s.done, p.packets ≠ []
+
+theorem inner_invN (D chunk wiggle : Nat) (hc : 0 < chunk) (hD : 28 < D) (hch : chunk ≤ 64770) (s : St) (packet : Bytes)
+    (h : InvN s) (hne : s.cur.packets ≠ []) :
+    InvN (inner (policy D) chunk wiggle hc s packet) ∧ (inner (policy D) chunk wiggle hc s packet).cur.packets ≠ [] := by
+  have extLast_ne : ∀ (ps : List Bytes) (d : Bytes), extLast ps d ≠ [] := by
+    intro ps d
+    rcases List.eq_nil_or_concat ps with h' | ⟨q, l, h'⟩
+    · subst h'; simp
+    · rw [h', List.concat_eq_append, extLast_concat]; simp
+  have step1 : ∀ (s : St) (data : Bytes), InvN s → s.cur.packets ≠ [] → data.length ≤ 64770 →
+      let s1 : St :=
+        if (policy D).fits s.cur data then
+          { s with cur := { s.cur with packets := extLast s.cur.packets data } }
+        else
+          match s.cur.packets.getLast? with
+          | some l =>
+            if l ≠ [] then
+              let old := { s.cur with complete := false,
+                                      position := if s.cur.packets.length = 1 then -1 else s.cur.position }
+              { done := s.done ++ [old],
+                cur := { packets := [data], continued := true, sequence := s.cur.sequence + 1 } }
+            else
+              let old := { s.cur with packets := s.cur.packets.dropLast }
+              { done := s.done ++ [old],
+                cur := { packets := [data], continued := !old.complete, sequence := s.cur.sequence + 1 } }
+          | none => s
+      InvN s1 ∧ s1.cur.packets ≠ [] := by
+    intro s data h hne hd
+    simp only
+    split
+    · exact ⟨⟨h.done⟩, extLast_ne _ _⟩
+    · rename_i hfit
+      split
+      · rename_i l hl
+        split
+        · refine ⟨⟨?_⟩, by simp⟩
+          intro p hp
+          rcases List.mem_append.mp hp with hp | hp
+          · exact h.done p hp
+          · simp only [List.mem_singleton] at hp; subst hp; exact hne
+        · rename_i hle
+          have hle' : l = [] := Classical.not_not.mp hle
+          refine ⟨⟨?_⟩, by simp⟩
+          intro p hp
+          rcases List.mem_append.mp hp with hp | hp
+          · exact h.done p hp
+          · simp only [List.mem_singleton] at hp; subst hp
+            simp only
+            -- the page is not just the empty packet that was begun: that one would have fitted
+            rcases List.eq_nil_or_concat s.cur.packets with hh | ⟨q, x, hh⟩
+            · exact absurd hh hne
+            · rw [List.concat_eq_append] at hh
+              have hx : x = l := by rw [hh] at hl; simpa using hl
+              rw [hh, List.dropLast_concat]
+              intro hq
+              apply hfit
+              exact fits_fresh D hD s.cur (by rw [hh, hq, hx, hle']; rfl) data hd
+      · exact ⟨h, hne⟩
+  fun_induction inner (policy D) chunk wiggle hc s packet with
+  | case1 s => exact ⟨h, hne⟩
+  | case2 s packet hpk data rest s1 hw =>
+    have h1' : InvN s1 ∧ s1.cur.packets ≠ [] := step1 s data h hne (by
+      show (List.take chunk packet).length ≤ 64770
+      simp only [List.length_take]; omega)
+    exact ⟨⟨h1'.1.done⟩, extLast_ne _ _⟩
+  | case3 s packet hpk data rest s1 hw ih =>
+    have h1' : InvN s1 ∧ s1.cur.packets ≠ [] := step1 s data h hne (by
+      show (List.take chunk packet).length ≤ 64770
+      simp only [List.length_take]; omega)
+    exact ih h1'.1 h1'.2
+
+theorem outer_invN (D chunk wiggle : Nat) (hc : 0 < chunk) (hD : 28 < D) (hch : chunk ≤ 64770) (s : St) (ps : List Bytes)
+    (h : InvN s) : InvN (outer (policy D) chunk wiggle hc s ps) := by
+  induction ps generalizing s with
+  | nil => simpa [outer] using h
+  | cons p ps ih =>
+    simp only [outer]
+    apply ih
+    have hf : InvN (if (policy D).pre s.cur = true ∧ s.cur.packets ≠ [] then
+        ({ done := s.done ++ [s.cur], cur := { sequence := s.cur.sequence + 1 } } : St) else s) := by
+      split
+      · rename_i hpre
+        refine ⟨?_⟩
+        intro q hq
+        rcases List.mem_append.mp hq with hq | hq
+        · exact h.done q hq
+        · simp only [List.mem_singleton] at hq; subst hq; exact hpre.2
+      · exact h
+    generalize hsf : (if (policy D).pre s.cur = true ∧ s.cur.packets ≠ [] then
+        ({ done := s.done ++ [s.cur], cur := { sequence := s.cur.sequence + 1 } } : St) else s) = sf at hf
+    exact (inner_invN D chunk wiggle hc hD hch
+      { done := sf.done, cur := { sf.cur with packets := sf.cur.packets ++ [[]] } } p ⟨hf.done⟩ (by simp)).1
+
+/-- every page `from_packets` builds with a page size above 28 (the default is 4096) holds at least one
+packet -/
+theorem fromPacketsWith_nonempty (D chunk wiggle : Nat) (hc : 0 < chunk) (hD : 28 < D) (hch : chunk ≤ 64770) (seq : Nat)
+    (P : List Bytes) : ∀ p ∈ fromPacketsWith (policy D) chunk wiggle hc seq P, p.packets ≠ [] := by
+  have h := outer_invN D chunk wiggle hc hD hch { done := [], cur := { sequence := seq } } P ⟨by simp⟩
+  intro p hp
+  simp only [fromPacketsWith] at hp
+  split at hp
+  · exact h.done p hp
+  · rename_i hcur
+    rcases List.mem_append.mp hp with hp | hp
+    · exact h.done p hp
+    · simp only [List.mem_singleton] at hp; subst hp; exact hcur
+
+
+/-! ### the first new page holds data: no hypothesis needed -/
+
+/-- the first page of the comment packet's run holds a packet -/
+theorem c1_packets_ne (c : Codec) (L : Layout) (h : L.OK c) (hold : reasm [] L.oldPages ≠ []) : L.c1.packets ≠ [] := by
+  intro hp
+  have hne : L.slots ≠ [] := by intro he; have := h.chain; rw [he] at this; exact this
+  have hg := good_c1 c L h
+  have hcomp : L.c1.complete = true := by
+    cases hcc : L.c1.complete with
+    | true => rfl
+    | false =>
+      rcases hg.canon with hcn | ⟨_, init, m, _, he⟩
+      · rw [hcn] at hcc; cases hcc
+      · rw [hp] at he; simp at he
+  cases hs : L.slots with
+  | nil => exact absurd hs hne
+  | cons s m =>
+    have e1 : L.c1 = s.1 := by simp [Layout.c1, Layout.oldPages, hs]
+    cases m with
+    | nil =>
+      have : L.oldPages = [s.1] := by simp [Layout.oldPages, hs]
+      rw [this, ← e1] at hold
+      simp [reasm, hp] at hold
+    | cons t m =>
+      have := h.chain
+      rw [hs] at this
+      have hcl : closed s.1 = false := this.1
+      rw [← e1] at hcl
+      simp [closed, hcomp] at hcl
+
+/-- whichever way `_from_packets_try_preserve` lays the new packets out, the first page it returns
+holds a packet (`from_packets` with the default sizes never emits an empty page; the copy of the
+old layout gives the first page as many packets as the old first page had) -/
+theorem new_head_nonempty (c : Codec) (L : Layout) (h : L.OK c) (hfresh : L.c1.continued = false)
+    (old0 new0 : Bytes) (others : List Bytes) (new : List Page)
+    (hpk : toPackets L.oldPages false = .ok (old0 :: others))
+    (hnew : newPages c (new0 :: others) L.oldPages = .ok new) :
+    ∀ p, new.head? = some p → p.packets ≠ [] := by
+  have hne : L.slots ≠ [] := by intro he; have := h.chain; rw [he] at this; exact this
+  obtain ⟨r, hr⟩ := oldPages_eq L hne
+  have hold : reasm [] L.oldPages = old0 :: others := (toPackets_ok _ _ _ (head_oldPages L hne) hfresh hpk).symm
+  have hc1 := c1_packets_ne c L h (by rw [hold]; simp)
+  rw [hr] at hpk hnew
+  rcases newPages_ok c L.c1 r (new0 :: others) (old0 :: others) hpk with h1 | ⟨_, htot, h2⟩
+  · rw [h1] at hnew
+    simp only [Except.ok.injEq] at hnew
+    intro p hp
+    apply fromPacketsWith_nonempty Generated.oggDefaultSize (Generated.oggDefaultSize / 255 * 255) Generated.oggWiggleRoom
+      (by decide) (by decide) (by decide) L.c1.sequence (new0 :: others) p
+    rw [hnew]; exact List.mem_of_mem_head? hp
+  · rw [h2] at hnew
+    simp only [Except.ok.injEq] at hnew
+    intro p hp
+    have hsp := (copyLayout_spec (L.c1 :: r) (new0 :: others).flatten (by omega)).1
+    rw [hnew] at hsp
+    cases hn : new with
+    | nil => rw [hn] at hp; simp at hp
+    | cons q qs =>
+      rw [hn] at hp hsp
+      simp only [List.head?_cons, Option.some.injEq] at hp
+      subst hp
+      simp only [List.map_cons, List.cons.injEq, shape, Prod.mk.injEq] at hsp
+      intro he
+      rw [he] at hsp
+      have := hsp.1.1
+      simp at this
+      exact hc1 this
+
+/-! ### the first packet of a page and the packet reassembled from it -/
+
+theorem extLast_head (a : Bytes) (as : List Bytes) (d : Bytes) : ∃ z zs, extLast (a :: as) d = z :: zs ∧ a <+: z := by
+  cases as with
+  | nil => exact ⟨a ++ d, [], rfl, List.prefix_append a d⟩
+  | cons b r => exact ⟨a, extLast (b :: r) d, rfl, List.prefix_refl a⟩
+
+/-- reassembly only ever extends the first packet it was handed -/
+theorem reasm_head_prefix (ps : List Page) (a : Bytes) (as : List Bytes) :
+    ∃ z zs, reasm (a :: as) ps = z :: zs ∧ a <+: z := by
+  induction ps generalizing a as with
+  | nil => exact ⟨a, as, rfl, List.prefix_refl a⟩
+  | cons p r ih =>
+    simp only [reasm]
+    split
+    · exact ih a as
+    · rename_i f rest _
+      split
+      · obtain ⟨z, zs, he, hp⟩ := extLast_head a as f
+        rw [he, List.cons_append]
+        obtain ⟨z', zs', he', hp'⟩ := ih z (zs ++ rest)
+        exact ⟨z', zs', he', List.IsPrefix.trans hp hp'⟩
+      · rw [List.cons_append]; exact ih a _
+
+theorem extLast_head2 (a b : Bytes) (as : List Bytes) (d : Bytes) : ∃ b' as', extLast (a :: b :: as) d = a :: b' :: as' := by
+  cases as with
+  | nil => exact ⟨b ++ d, [], rfl⟩
+  | cons c r =>
+    obtain ⟨z, zs, he, _⟩ := extLast_head b (c :: r) d
+    exact ⟨z, zs, by simp only [extLast] at he ⊢; rw [he]⟩
+
+/-- a first packet with another one behind it is finished -/
+theorem reasm_head_fixed (ps : List Page) (a b : Bytes) (as : List Bytes) :
+    ∃ zs, reasm (a :: b :: as) ps = a :: zs := by
+  induction ps generalizing b as with
+  | nil => exact ⟨_, rfl⟩
+  | cons p r ih =>
+    simp only [reasm]
+    split
+    · exact ih b as
+    · rename_i f rest _
+      split
+      · obtain ⟨b', as', he⟩ := extLast_head2 a b as f
+        rw [he]; exact ih b' (as' ++ rest)
+      · exact ih b (as ++ f :: rest)
+
+/-- the first packet on a page that starts a packet is the whole reassembled packet, or it is at
+least 255 bytes of it -/
+theorem head_packet (y : Page) (r : List Page) (hcan : Canon y) (hcont : contOK false (y :: r)) (x : Bytes) (xs : List Bytes)
+    (hp : y.packets = x :: xs) (z : Bytes) (zs : List Bytes) (hre : reasm [] (y :: r) = z :: zs) :
+    x = z ∨ (255 ≤ x.length ∧ x <+: z) := by
+  have hc : y.continued = false := hcont.1
+  simp only [reasm, hp, hc, Bool.false_eq_true, ↓reduceIte, List.nil_append] at hre
+  rcases hcan with hcomp | ⟨hinc, init, m, hm, he⟩
+  · have hr : contOK false r := by have := hcont.2.2; rw [hcomp] at this; exact this
+    rw [reasm_fresh _ r (startsFresh_of_contOK r hr)] at hre
+    simp only [List.cons_append, List.cons.injEq] at hre
+    exact Or.inl hre.1
+  · cases xs with
+    | nil =>
+      right
+      rw [hp] at he
+      have hx : x.length = 255 * m := by
+        cases init with
+        | nil => simpa using he
+        | cons i is =>
+          have := congrArg List.length he
+          simp at this
+      obtain ⟨z', zs', he', hpre⟩ := reasm_head_prefix r x []
+      rw [he'] at hre
+      simp only [List.cons.injEq] at hre
+      rw [← hre.1]
+      exact ⟨by omega, hpre⟩
+    | cons b bs =>
+      obtain ⟨zs', he'⟩ := reasm_head_fixed r x b bs
+      rw [he'] at hre
+      simp only [List.cons.injEq] at hre
+      exact Or.inl hre.1
+
+/-! ### the stream behind the edit, page by page -/
+
+/-- after the edit the pages of the stream from the comment packet's first page on are: some pages
+that leave their only packet open, then one that does not, and `to_packets` of these is the new
+comment packet followed by what else ends on the last of them -/
+theorem run_after (c : Codec) (L : Layout) (h : L.OK c) (hfresh : L.c1.continued = false)
+    (hflags : contOK false (stream L.serial L.pages))
+    (a : Nat) (hnum : (stream L.serial L.pages).map (·.sequence) = List.range' a (stream L.serial L.pages).length)
+    (hend : ∀ l, (stream L.serial L.pages).getLast? = some l → l.complete = true)
+    (old0 new0 : Bytes) (others : List Bytes) (new : List Page)
+    (hpk : toPackets L.oldPages false = .ok (old0 :: others))
+    (hnew : newPages c (new0 :: others) L.oldPages = .ok new)
+    (hseq : L.c1.sequence + new.length + (L.post.filter (·.serial = L.serial)).length ≤ 2 ^ 32) :
+    ∃ opens cl rest ys, prepare L.c1 L.cK new ++
+        stream L.serial (if L.slots.length ≠ new.length then renum L.serial (L.c1.sequence + new.length) L.post else L.post) =
+          opens ++ cl :: rest ∧
+      (∀ p ∈ opens, closed p = false) ∧ closed cl = true ∧ toPackets (opens ++ [cl]) false = .ok (new0 :: ys) ∧
+      (∀ y, (opens ++ [cl]).head? = some y → ∃ x xs, y.packets = x :: xs ∧ (x = new0 ∨ (255 ≤ x.length ∧ x <+: new0))) ∧
+      contOK false (opens ++ cl :: rest) ∧
+      (∃ b, (opens ++ cl :: rest).map (·.sequence) = List.range' b (opens ++ cl :: rest).length) := by
+  have hhead := new_head_nonempty c L h hfresh old0 new0 others new hpk hnew
+  have hs := streamOK_of_contOK c L h hfresh hflags
+  have hf := facts_of_edit c L h hs old0 new0 others new hpk hnew
+  have hgood := (readAll_after c L h _ new hf hseq).1
+  have hne : L.slots ≠ [] := by intro he; have := h.chain; rw [he] at this; exact this
+  -- the stream from `pos` on: the new run, then the pages behind it
+  generalize hT : stream L.serial (if L.slots.length ≠ new.length then renum L.serial (L.c1.sequence + new.length) L.post else L.post) = T
+  have hst := stream_after c L h new
+  rw [hT] at hst
+  have hprep_ne : prepare L.c1 L.cK new ≠ [] := by
+    intro he; have := length_prepare L.c1 L.cK new; rw [he] at this
+    exact hf.ne (List.eq_nil_of_length_eq_zero this.symm)
+  -- flags, numbers and the end of the stream after the edit
+  have hcont := contOK_after c L h _ new hf hflags
+  have hseqs := seq_after c L h new a hnum
+  have hlastT : ∀ l, T.getLast? = some l → l.complete = true := by
+    intro l hl
+    have hk : (stream L.serial L.post).map (fun p => p.complete) = T.map (fun p => p.complete) := by
+      rw [← hT]
+      split
+      · have := congrArg (List.map (fun x : Bool × Bool × List Nat => x.2.1)) (key_stream_renum L.serial (L.c1.sequence + new.length) L.post)
+        simpa [List.map_map, Function.comp_def] using this
+      · rfl
+    have e := congrArg List.getLast? hk
+    rw [List.getLast?_map, List.getLast?_map, hl] at e
+    cases hg : (stream L.serial L.post).getLast? with
+    | none => rw [hg] at e; simp at e
+    | some q =>
+      rw [hg] at e
+      simp only [Option.map_some, Option.some.injEq] at e
+      rw [← e]
+      apply hend q
+      rw [stream_pages c L h, List.getLast?_append, hg]; rfl
+  have hlastS : ∀ l, (prepare L.c1 L.cK new ++ T).getLast? = some l → l.complete = true := by
+    intro l hl
+    rw [List.getLast?_append] at hl
+    cases hg : T.getLast? with
+    | some q => rw [hg] at hl; simp at hl; subst hl; exact hlastT q hg
+    | none =>
+      rw [hg] at hl
+      simp only [Option.none_or] at hl
+      have hTnil : T = [] := by simpa using hg
+      rw [last_prepare_complete L.c1 L.cK new hf.ne hf.cont hf.lastpk l hl]
+      -- nothing of the stream behind the run: its last old page was the stream's last page
+      have hpostnil : stream L.serial L.post = [] := by
+        have hk : (stream L.serial L.post).length = T.length := by
+          rw [← hT]; split
+          · exact (seq_stream_renum _ _ _).2.symm
+          · rfl
+        rw [hTnil] at hk
+        exact List.eq_nil_of_length_eq_zero hk
+      apply hend L.cK
+      rw [stream_pages c L h, hpostnil, List.append_nil, List.getLast?_append, last_oldPages L hne]; rfl
+  obtain ⟨opens, cl, rest, hdec, hopen, hclosed⟩ := exists_first_closed (prepare L.c1 L.cK new ++ T)
+    (by simp [hprep_ne]) hlastS
+  -- the first packet of the stream from the run on is the new comment packet
+  have hheadc : ∀ p, (prepare L.c1 L.cK new ++ T).head? = some p → p.continued = false := by
+    intro p hp
+    cases hpn : prepare L.c1 L.cK new with
+    | nil => exact absurd hpn hprep_ne
+    | cons q qs =>
+      rw [hpn] at hp; simp at hp; subst hp
+      have := (contOK_prepare L.c1 L.cK new hf.ne hf.cont hf.lastpk).1
+      rw [hpn] at this
+      rw [this.1]; exact hfresh
+  have hcontS : contOK false (prepare L.c1 L.cK new ++ T) := by
+    rw [hst, List.append_assoc, contOK_append] at hcont
+    exact contOK_head _ _ hcont.2 hheadc
+  have hserS : ∀ p ∈ prepare L.c1 L.cK new ++ T, p.serial = L.serial := by
+    intro p hp
+    have : p ∈ stream L.serial (L.after new) := by rw [hst, List.append_assoc]; exact List.mem_append_right _ hp
+    simp only [stream, List.mem_filter, decide_eq_true_eq] at this
+    exact this.2
+  have hseqS : ∃ b, (prepare L.c1 L.cK new ++ T).map (·.sequence) = List.range' b (prepare L.c1 L.cK new ++ T).length := by
+    rw [hst, List.append_assoc] at hseqs
+    exact ⟨_, (range'_split _ _ _ _ hseqs).2⟩
+  have hcar := carries_of new _ L.c1 L.cK hf.carries hf.fresh hf.head
+  have hre : ∃ xs, reasm [] (prepare L.c1 L.cK new ++ T) = new0 :: xs := by
+    rw [reasm_append, hcar, List.nil_append]
+    by_cases ho : others = []
+    · subst ho
+      -- the run's last page is complete, what follows starts a packet
+      obtain ⟨i, hi⟩ := oldPages_snoc L hne
+      have hcl := chain_last_closed L.slots h.chain i L.cK hi
+      have hold : reasm [] L.oldPages = [old0] := (toPackets_ok _ _ _ (head_oldPages L hne) hfresh hpk).symm
+      have hlen : L.cK.packets.length ≤ 1 := by
+        have := length_reasm_ge_last [] i L.cK
+        rw [← hi, hold] at this
+        simpa using this
+      have hcomp : L.cK.complete = true := by
+        simp only [closed, Bool.or_eq_true, decide_eq_true_eq] at hcl
+        rcases hcl with hcl | hcl
+        · exact hcl
+        · omega
+      have hpost := hs.post
+      rw [hcomp] at hpost
+      have hTf : startsFresh T = true := by
+        rw [← hT]; split
+        · exact startsFresh_of_contOK _ (contOK_stream_renum _ _ _ _ hpost)
+        · exact startsFresh_of_contOK _ hpost
+      exact ⟨_, by rw [reasm_fresh [new0] T hTf]; rfl⟩
+    · have := reasm_prefix [new0] others T ho
+      exact ⟨_, by simpa using this⟩
+  obtain ⟨xs, hre⟩ := hre
+  have hfirst : ∀ p, (opens ++ [cl]).head? = some p → p.packets ≠ [] := by
+    intro p hp
+    have hsame : (opens ++ [cl]).head? = (prepare L.c1 L.cK new ++ T).head? := by
+      rw [hdec]; cases opens <;> rfl
+    rw [hsame] at hp
+    cases hpn : prepare L.c1 L.cK new with
+    | nil => exact absurd hpn hprep_ne
+    | cons q qs =>
+      rw [hpn] at hp; simp at hp; subst hp
+      have hq : q ∈ prepare L.c1 L.cK new := by rw [hpn]; simp
+      -- the head of `prepare` has the packets of the head of `new`
+      have hsd := sameData_prepare L.c1 L.cK new hf.head
+      cases hnw : new with
+      | nil => exact absurd hnw hf.ne
+      | cons n0 nr =>
+        rw [hpn, hnw] at hsd
+        simp only [SameData, List.map_cons, List.cons.injEq, Prod.mk.injEq] at hsd
+        rw [hsd.1.1]; exact hhead n0 (by rw [hnw]; rfl)
+  have hdec0 := hdec
+  rw [hdec] at hcontS hserS hseqS hre
+  obtain ⟨ys, hys⟩ := run_first_packet L.serial opens cl rest new0 xs hserS hseqS hcontS hclosed hfirst hre
+  refine ⟨opens, cl, rest, ys, hdec0, hopen, hclosed, hys, ?_, hcontS, hseqS⟩
+  intro y hy
+  have hyne := hfirst y hy
+  cases hpk' : y.packets with
+  | nil => exact absurd hpk' hyne
+  | cons x xs' =>
+    refine ⟨x, xs', rfl, ?_⟩
+    have hsame : (opens ++ [cl]).head? = (opens ++ cl :: rest).head? := by cases opens <;> rfl
+    rw [hsame] at hy
+    cases hS : opens ++ cl :: rest with
+    | nil => rw [hS] at hy; simp at hy
+    | cons q r =>
+      rw [hS] at hy hcontS hre
+      simp only [List.head?_cons, Option.some.injEq] at hy
+      subst hy
+      have hq : q ∈ prepare L.c1 L.cK new := by
+        have : (prepare L.c1 L.cK new ++ T).head? = some q := by rw [hdec0, hS]; rfl
+        cases hpn : prepare L.c1 L.cK new with
+        | nil => exact absurd hpn hprep_ne
+        | cons q' qs => rw [hpn] at this; simp at this; rw [this]; simp
+      exact head_packet q r (hf.canon q hq) hcontS x xs' hpk' new0 xs hre
+
+
+/-! ### the Opus reader: `scanFrom` to the first "OpusTags" page, then `collect` -/
+
+/-- `collect` started on an open page appends the stream's pages up to the first closed one -/
+theorem collect_pages (f : Bytes) (ser : Nat) (Y : List Page) (A R : Bytes) (fuel : Nat) (acc : List Rd) (last : Page)
+    (opens : List Page) (cl : Page) (rest : List Page) (hf : f = A ++ renderPages Y ++ R) (hY : ∀ p ∈ Y, Good p)
+    (hs : stream ser Y = opens ++ cl :: rest) (ho : ∀ p ∈ opens, closed p = false) (hc : closed cl = true)
+    (hlast : closed last = false) (hfuel : Y.length + 1 < fuel) :
+    ∃ rs, collect f ser fuel acc last A.length = .ok rs ∧ rs.map (·.page) = acc.map (·.page) ++ opens ++ [cl] := by
+  induction Y generalizing A fuel acc last opens with
+  | nil => simp [stream] at hs
+  | cons y r ih =>
+    cases fuel with
+    | zero => simp at hfuel
+    | succ fuel =>
+      have hgy := hY y (by simp)
+      have hf' : f = A ++ rb y ++ (renderPages r ++ R) := by rw [hf]; simp [List.append_assoc]
+      have hl : (last.complete || decide (last.packets.length > 1)) = false := hlast
+      simp only [collect, hl, Bool.false_eq_true, ↓reduceIte, readPage_at f A _ y hgy hf']
+      by_cases hser : y.serial = ser
+      · simp only [hser, ↓reduceIte]
+        have hs' : y :: stream ser r = opens ++ cl :: rest := by
+          simpa [stream, List.filter_cons, hser] using hs
+        cases opens with
+        | nil =>
+          simp only [List.nil_append, List.cons.injEq] at hs'
+          obtain ⟨rfl, _⟩ := hs'
+          have hcy : (y.complete || decide (y.packets.length > 1)) = true := hc
+          cases fuel with
+          | zero => simp at hfuel
+          | succ fuel =>
+            simp only [collect, hcy, ↓reduceIte]
+            exact ⟨_, rfl, by simp⟩
+        | cons o os =>
+          simp only [List.cons_append, List.cons.injEq] at hs'
+          obtain ⟨rfl, hs''⟩ := hs'
+          have hopen : closed y = false := ho y (by simp)
+          obtain ⟨rs, h1, h2⟩ := ih (A ++ rb y) fuel (acc ++ [⟨y, A.length⟩]) y os (by rw [hf]; simp [List.append_assoc])
+            (fun p hp => hY p (by simp [hp])) hs'' (fun p hp => ho p (by simp [hp])) hopen (by simp at hfuel; omega)
+          simp only [List.length_append, length_rb] at h1
+          exact ⟨rs, h1, by rw [h2]; simp [List.append_assoc]⟩
+      · simp only [hser, ↓reduceIte]
+        have hs' : stream ser r = opens ++ cl :: rest := by
+          simpa [stream, List.filter_cons, hser] using hs
+        obtain ⟨rs, h1, h2⟩ := ih (A ++ rb y) fuel acc last opens (by rw [hf]; simp [List.append_assoc])
+          (fun p hp => hY p (by simp [hp])) hs' ho hlast (by simp at hfuel; omega)
+        simp only [List.length_append, length_rb] at h1
+        exact ⟨rs, h1, h2⟩
+
+/-- a list of pages up to the first page of a stream -/
+theorem split_first_of_stream (ser : Nat) (Y : List Page) (s0 : Page) (S : List Page) (hs : stream ser Y = s0 :: S) :
+    ∃ skip Y', Y = skip ++ s0 :: Y' ∧ (∀ p ∈ skip, p.serial ≠ ser) ∧ stream ser Y' = S := by
+  induction Y with
+  | nil => simp [stream] at hs
+  | cons y r ih =>
+    by_cases hser : y.serial = ser
+    · have hs' : y :: stream ser r = s0 :: S := by simpa [stream, List.filter_cons, hser] using hs
+      simp only [List.cons.injEq] at hs'
+      obtain ⟨rfl, h2⟩ := hs'
+      exact ⟨[], r, rfl, by simp, h2⟩
+    · have hs' : stream ser r = s0 :: S := by simpa [stream, List.filter_cons, hser] using hs
+      obtain ⟨skip, Y', h1, h2, h3⟩ := ih hs'
+      refine ⟨y :: skip, Y', by rw [h1]; rfl, ?_, h3⟩
+      intro p hp
+      simp only [List.mem_cons] at hp
+      rcases hp with rfl | hp
+      · exact hser
+      · exact h2 p hp
+
+/-- the Opus way of finding the comment pages, on pages: from a position in front of the stream's pages
+`opens ++ cl :: rest` (`opens` open, `cl` closed) whose first page starts with "OpusTags", the pages
+found are `opens ++ [cl]` -/
+theorem opus_pages (f : Bytes) (ser : Nat) (Y : List Page) (A R : Bytes) (opens : List Page) (cl : Page) (rest : List Page)
+    (hf : f = A ++ renderPages Y ++ R) (hY : ∀ p ∈ Y, Good p)
+    (hs : stream ser Y = opens ++ cl :: rest) (ho : ∀ p ∈ opens, closed p = false) (hc : closed cl = true)
+    (hmagic : ∀ y, (opens ++ [cl]).head? = some y → startsWith magicOpusTags y = true) (fuel : Nat) (hfuel : Y.length + 2 < fuel) :
+    ∃ r next rs, scanFrom f (fun p => decide (p.serial = ser) && startsWith magicOpusTags p) fuel A.length = .ok (r, next) ∧
+      collect f r.page.serial fuel [r] r.page next = .ok rs ∧ rs.map (·.page) = opens ++ [cl] := by
+  obtain ⟨s0, S, hS⟩ : ∃ s0 S, opens ++ cl :: rest = s0 :: S := by cases opens <;> simp
+  rw [hS] at hs
+  obtain ⟨skip, Y', hY', hskip, hstr⟩ := split_first_of_stream ser Y s0 S hs
+  have hs0 : s0.serial = ser := by
+    have : s0 ∈ stream ser Y := by rw [hs]; simp
+    simp only [stream, List.mem_filter, decide_eq_true_eq] at this
+    exact this.2
+  have hhead : (opens ++ [cl]).head? = some s0 := by
+    cases opens with
+    | nil => simp at hS ⊢; exact hS.1
+    | cons o os => simp at hS ⊢; exact hS.1
+  have hf1 : f = A ++ renderPages skip ++ rb s0 ++ (renderPages Y' ++ R) := by
+    rw [hf, hY']; simp [renderPages_append, List.append_assoc]
+  have hlen : Y.length = skip.length + 1 + Y'.length := by rw [hY']; simp; omega
+  have hscan := scanFrom_pages f (fun p => decide (p.serial = ser) && startsWith magicOpusTags p) skip s0 A _ fuel hf1
+    (fun p hp => ⟨hY p (by rw [hY']; simp [hp]), by simp [hskip p hp]⟩) (hY s0 (by rw [hY']; simp))
+    (by simp [hs0, hmagic s0 hhead]) (by omega)
+  refine ⟨⟨s0, A.length + (renderPages skip).length⟩, A.length + (renderPages skip).length + s0.size, ?_⟩
+  cases opens with
+  | nil =>
+    simp only [List.nil_append, List.cons.injEq] at hS
+    obtain ⟨rfl, _⟩ := hS
+    have hcy : (cl.complete || decide (cl.packets.length > 1)) = true := hc
+    cases fuel with
+    | zero => simp at hfuel
+    | succ fuel =>
+      refine ⟨[⟨cl, A.length + (renderPages skip).length⟩], hscan, ?_, by simp⟩
+      simp only [collect, hcy, ↓reduceIte]
+  | cons o os =>
+    simp only [List.cons_append, List.cons.injEq] at hS
+    obtain ⟨rfl, hS2⟩ := hS
+    obtain ⟨rs, h1, h2⟩ := collect_pages f ser Y' (A ++ renderPages skip ++ rb o) R fuel [⟨o, A.length + (renderPages skip).length⟩] o os cl rest
+      (by rw [hf1]; simp [List.append_assoc]) (fun p hp => hY p (by rw [hY']; simp [hp])) (by rw [hstr, ← hS2])
+      (fun p hp => ho p (by simp [hp])) hc (ho o (by simp)) (by omega)
+    refine ⟨rs, hscan, ?_, by rw [h2]; simp⟩
+    simp only [List.length_append, length_rb] at h1
+    rw [hs0]; exact h1
+
+theorem length_renderPages_ge3 (ps : List Page) : 3 * ps.length ≤ (renderPages ps).length := by
+  induction ps with
+  | nil => simp
+  | cons p r ih =>
+    simp only [renderPages_cons, List.length_cons, List.length_append, length_rb]
+    have : 27 ≤ p.size := by simp only [Page.size]; omega
+    omega
+
+/-- the comment constructor of each of the five codecs, started behind the identification page of the
+saved file, finds the new comment packet and strips the codec's prefix from it -/
+theorem readComment_after (c : Codec) (L : Layout) (h : L.OK c) (hfresh : L.c1.continued = false)
+    (hflags : contOK false (stream L.serial L.pages))
+    (a : Nat) (hnum : (stream L.serial L.pages).map (·.sequence) = List.range' a (stream L.serial L.pages).length)
+    (hend : ∀ l, (stream L.serial L.pages).getLast? = some l → l.complete = true)
+    (pre1 pre2 : List Page) (hpre : L.pre = pre1 ++ pre2) (hpre2 : ∀ p ∈ pre2, p.serial ≠ L.serial)
+    (old0 new0 : Bytes) (others : List Bytes) (new : List Page)
+    (hpk : toPackets L.oldPages false = .ok (old0 :: others))
+    (hnew : newPages c (new0 :: others) L.oldPages = .ok new)
+    (hseq : L.c1.sequence + new.length + (L.post.filter (·.serial = L.serial)).length ≤ 2 ^ 32)
+    (hmagic : c = .opus → magicOpusTags <+: new0) :
+    readComment c (renderPages (L.after new)) L.serial (renderPages pre1).length = .ok (new0.drop c.stripLen) := by
+  have hs := streamOK_of_contOK c L h hfresh hflags
+  have hf := facts_of_edit c L h hs old0 new0 others new hpk hnew
+  have hgood := (readAll_after c L h _ new hf hseq).1
+  obtain ⟨opens, cl, rest, ys, hdec, hopen, hclosed, htp, hx, _, _⟩ :=
+    run_after c L h hfresh hflags a hnum hend old0 new0 others new hpk hnew hseq
+  generalize hT : stream L.serial (if L.slots.length ≠ new.length then renum L.serial (L.c1.sequence + new.length) L.post else L.post) = T at hdec
+  have hst := stream_after c L h new
+  rw [hT] at hst
+  obtain ⟨Y, hY⟩ : ∃ Y, L.after new = pre1 ++ Y := by
+    refine ⟨pre2 ++ splicePages (fitPages L.slots.length (prepare L.c1 L.cK new)) L.slots ++
+      (if L.slots.length ≠ new.length then renum L.serial (L.c1.sequence + new.length) L.post else L.post), ?_⟩
+    simp [Layout.after, hpre, List.append_assoc]
+  have hSY : stream L.serial Y = opens ++ cl :: rest := by
+    have h1 : stream L.serial (L.after new) = stream L.serial pre1 ++ stream L.serial Y := by rw [hY, stream_append]
+    rw [hst, hpre, stream_append, stream_of_none _ pre2 hpre2, List.append_nil, List.append_assoc] at h1
+    rw [← hdec]; exact (List.append_cancel_left h1).symm
+  have hfile : renderPages (L.after new) = renderPages pre1 ++ renderPages Y ++ [] := by rw [hY]; simp [renderPages_append]
+  have hgY : ∀ p ∈ Y, Good p := fun p hp => hgood p (by rw [hY]; simp [hp])
+  have hYne : Y ≠ [] := by intro he; rw [he] at hSY; simp [stream] at hSY
+  have hlen3 := length_renderPages_ge3 Y
+  have hlenY : 0 < Y.length := List.length_pos_iff.mpr hYne
+  have hfl : (renderPages (L.after new)).length = (renderPages pre1).length + (renderPages Y).length := by
+    rw [hfile]; simp
+  unfold readComment
+  by_cases hc : c = .opus
+  · subst hc
+    have hm : ∀ y, (opens ++ [cl]).head? = some y → startsWith magicOpusTags y = true := by
+      intro y hy
+      obtain ⟨x, xs, hp, hcase⟩ := hx y hy
+      have hmg := hmagic rfl
+      simp only [startsWith, hp, List.isPrefixOf_iff_prefix]
+      rcases hcase with rfl | ⟨hl, hpre'⟩
+      · exact hmg
+      · exact List.prefix_of_prefix_length_le hmg hpre' (by simp [magicOpusTags]; omega)
+    obtain ⟨r, next, rs, h1, h2, h3⟩ := opus_pages (renderPages (L.after new)) L.serial Y (renderPages pre1) [] opens cl rest
+      hfile hgY hSY hopen hclosed hm ((renderPages (L.after new)).length + 1) (by omega)
+    simp only [h1, h2, h3, htp]
+    rfl
+  · have hloop := readLoop_pages (renderPages (L.after new)) L.serial Y (renderPages pre1) [] ((renderPages (L.after new)).length + 1)
+      [] opens cl rest hfile hgY hSY hopen hclosed (by omega)
+    simp only [List.nil_append] at hloop
+    cases c with
+    | opus => exact absurd rfl hc
+    | vorbis => simp only [hloop, htp]; rfl
+    | theora => simp only [hloop, htp]; rfl
+    | speex => simp only [hloop, htp]; rfl
+    | flac => simp only [hloop, htp]; rfl
+
+/-- (a) mutagen's own reader on the saved file, all five codecs: the comment constructor, started behind
+the identification page, followed by `VComment.load` returns exactly the vendor string and the comments
+that were saved (and, as the rest, the padding; Opus: the preserved data) -/
+theorem readTags_saved (c : Codec) (L : Layout) (h : L.OK c) (hfresh : L.c1.continued = false)
+    (hflags : contOK false (stream L.serial L.pages))
+    (a : Nat) (hnum : (stream L.serial L.pages).map (·.sequence) = List.range' a (stream L.serial L.pages).length)
+    (hend : ∀ l, (stream L.serial L.pages).getLast? = some l → l.complete = true)
+    (pre1 pre2 : List Page) (hpre : L.pre = pre1 ++ pre2) (hpre2 : ∀ p ∈ pre2, p.serial ≠ L.serial)
+    (vendor : Bytes) (cs : List (Bytes × Bytes)) (hv : vendor.length < 256 ^ 4) (hn : cs.length < 256 ^ 4)
+    (hcs : ∀ kv ∈ cs, Vorbis.CommentOK kv ∧ validKey kv.1 = true)
+    (padData : Bytes) (pad : PadChoice) (old0 new0 : Bytes) (others : List Bytes) (new : List Page)
+    (hpk : toPackets L.oldPages false = .ok (old0 :: others)) (hflac : c = .flac → old0 ≠ [])
+    (hnp : newPacket c old0 (Vorbis.encode vendor cs c.framing) padData pad L.render.length = .ok new0)
+    (hnew : newPages c (new0 :: others) L.oldPages = .ok new)
+    (hseq : L.c1.sequence + new.length + (L.post.filter (·.serial = L.serial)).length ≤ 2 ^ 32) :
+    ∃ rest, readTags c (renderPages (L.after new)) L.serial (renderPages pre1).length = .ok (vendor, cs, rest) := by
+  obtain ⟨hd, tail, hshape, hlen, _, hpfx⟩ := newPacket_shape c old0 _ padData pad _ new0 hflac hnp
+  have hdrop : new0.drop c.stripLen = Vorbis.encode vendor cs c.framing ++ tail := by
+    rw [hshape, List.append_assoc, ← hlen]; exact List.drop_left' rfl
+  have hmagic : c = .opus → magicOpusTags <+: new0 := by
+    intro hc
+    have := (hpfx (by rw [hc]; simp)).1
+    rw [hshape, this, hc, List.append_assoc]
+    exact List.prefix_append _ _
+  have hrc := readComment_after c L h hfresh hflags a hnum hend pre1 pre2 hpre hpre2 old0 new0 others new hpk hnew hseq hmagic
+  refine ⟨tail, ?_⟩
+  unfold readTags
+  rw [hrc, hdrop]
+  exact loadVC_encode vendor cs c.framing tail hv hn hcs
+
+
+/-! ### the run the second save finds -/
+
+theorem length_extLast (acc : List Bytes) (d : Bytes) (h : acc ≠ []) : (extLast acc d).length = acc.length := by
+  induction acc with
+  | nil => exact absurd rfl h
+  | cons a r ih =>
+    cases r with
+    | nil => rfl
+    | cons b r' => simp only [extLast, List.length_cons] at ih ⊢; rw [ih (by simp)]
+
+/-- continuation pages that all leave their only packet open add no packet -/
+theorem reasm_open_len (ps : List Page) (acc : List Bytes) (hacc : acc ≠ []) (hc : contOK true ps)
+    (ho : ∀ p ∈ ps, closed p = false) : (reasm acc ps).length = acc.length := by
+  induction ps generalizing acc with
+  | nil => rfl
+  | cons p r ih =>
+    have hop := ho p (by simp)
+    simp only [closed, Bool.or_eq_false_iff, decide_eq_false_iff_not] at hop
+    have hcomp := hop.1
+    have hne := hc.2.1 hcomp
+    have hcont := hc.1
+    have hr : contOK true r := by have := hc.2.2; rw [hcomp] at this; exact this
+    cases hp : p.packets with
+    | nil => exact absurd hp hne
+    | cons f rest =>
+      have hrest : rest = [] := by
+        cases rest with
+        | nil => rfl
+        | cons _ _ => rw [hp] at hop; simp at hop
+      subst hrest
+      simp only [reasm, hp, hcont, ↓reduceIte, List.append_nil]
+      rw [ih (extLast acc f) (by intro he; have := length_extLast acc f hacc; rw [he] at this; simp at this; exact hacc (List.eq_nil_of_length_eq_zero this.symm))
+        hr (fun q hq => ho q (by simp [hq])), length_extLast acc f hacc]
+
+/-- a run that starts a packet and whose pages all leave their only packet open holds one packet -/
+theorem reasm_all_open (ps : List Page) (hne : ps ≠ []) (hc : contOK false ps) (ho : ∀ p ∈ ps, closed p = false) :
+    (reasm [] ps).length = 1 := by
+  cases ps with
+  | nil => exact absurd rfl hne
+  | cons p r =>
+    have hop := ho p (by simp)
+    simp only [closed, Bool.or_eq_false_iff, decide_eq_false_iff_not] at hop
+    have hcomp := hop.1
+    have hpne := hc.2.1 hcomp
+    have hr : contOK true r := by have := hc.2.2; rw [hcomp] at this; exact this
+    cases hp : p.packets with
+    | nil => exact absurd hp hpne
+    | cons f rest =>
+      have hrest : rest = [] := by
+        cases rest with
+        | nil => rfl
+        | cons _ _ => rw [hp] at hop; simp at hop
+      subst hrest
+      simp only [reasm, hp, hc.1, Bool.false_eq_true, ↓reduceIte, List.nil_append]
+      rw [reasm_open_len r [f] (by simp) hr (fun q hq => ho q (by simp [hq]))]; rfl
+
+/-- a list with a closed page: the open pages in front of the first closed one -/
+theorem first_closed_of_mem (S : List Page) (h : ∃ p ∈ S, closed p = true) :
+    ∃ opens cl rest, S = opens ++ cl :: rest ∧ (∀ p ∈ opens, closed p = false) ∧ closed cl = true := by
+  induction S with
+  | nil => obtain ⟨p, hp, _⟩ := h; simp at hp
+  | cons p r ih =>
+    by_cases hc : closed p = true
+    · exact ⟨[], p, r, rfl, by simp, hc⟩
+    · have : ∃ q ∈ r, closed q = true := by
+        obtain ⟨q, hq, hqc⟩ := h
+        simp only [List.mem_cons] at hq
+        rcases hq with rfl | hq
+        · exact absurd hqc hc
+        · exact ⟨q, hq, hqc⟩
+      obtain ⟨o, cl, rest, he, ho, hcl⟩ := ih this
+      refine ⟨p :: o, cl, rest, by rw [he]; rfl, ?_, hcl⟩
+      intro q hq
+      simp only [List.mem_cons] at hq
+      rcases hq with rfl | hq
+      · simpa using hc
+      · exact ho q hq
+
+theorem first_closed_unique (o1 o2 : List Page) (c1 c2 : Page) (r1 r2 : List Page)
+    (he : o1 ++ c1 :: r1 = o2 ++ c2 :: r2) (h1 : ∀ p ∈ o1, closed p = false) (h2 : ∀ p ∈ o2, closed p = false)
+    (hc1 : closed c1 = true) (hc2 : closed c2 = true) : o1 = o2 ∧ c1 = c2 ∧ r1 = r2 := by
+  induction o1 generalizing o2 with
+  | nil =>
+    cases o2 with
+    | nil => simp at he; exact ⟨rfl, he.1, he.2⟩
+    | cons a b =>
+      simp at he
+      have := h2 a (by simp)
+      rw [← he.1, hc1] at this; cases this
+  | cons a b ih =>
+    cases o2 with
+    | nil =>
+      simp at he
+      have := h1 a (by simp)
+      rw [he.1, hc2] at this; cases this
+    | cons a' b' =>
+      simp only [List.cons_append, List.cons.injEq] at he
+      obtain ⟨h3, h4, h5⟩ := ih b' he.2 (fun p hp => h1 p (by simp [hp])) (fun p hp => h2 p (by simp [hp]))
+      exact ⟨by rw [he.1, h3], h4, h5⟩
+
+/-- pages that start with a page of the stream, cut into the run up to the first closed page of the
+stream — each page of it with the foreign pages behind it, none behind the last — and the rest -/
+theorem reslice (ser : Nat) (opens : List Page) (cl : Page) (rest : List Page) (Z : List Page) (z0 : Page) (Z0 : List Page)
+    (hZ : Z = z0 :: Z0) (hz0 : z0.serial = ser) (hs : stream ser Z = opens ++ cl :: rest)
+    (ho : ∀ p ∈ opens, closed p = false) (hc : closed cl = true) :
+    ∃ (m : List Slot) (post : List Page), Z = slotPages m ++ post ∧ m.map (·.1) = opens ++ [cl] ∧ Chain m ∧
+      (∀ s ∈ m, ∀ p ∈ s.2, p ∈ Z ∧ p.serial ≠ ser) ∧ stream ser post = rest ∧ (∀ p ∈ post, p ∈ Z) := by
+  induction opens generalizing Z z0 Z0 with
+  | nil =>
+    subst hZ
+    have hs' : z0 :: stream ser Z0 = cl :: rest := by simpa [stream, List.filter_cons, hz0] using hs
+    simp only [List.cons.injEq] at hs'
+    obtain ⟨rfl, h2⟩ := hs'
+    refine ⟨[(z0, [])], Z0, by simp [slotPages], rfl, ⟨hc, rfl⟩, by simp, h2, fun p hp => by simp [hp]⟩
+  | cons o os ih =>
+    subst hZ
+    have hs' : z0 :: stream ser Z0 = o :: (os ++ cl :: rest) := by simpa [stream, List.filter_cons, hz0] using hs
+    simp only [List.cons.injEq] at hs'
+    obtain ⟨rfl, h2⟩ := hs'
+    obtain ⟨s1, S1, hS1⟩ : ∃ s1 S1, os ++ cl :: rest = s1 :: S1 := by cases os <;> simp
+    rw [hS1] at h2
+    obtain ⟨skip, Y', hY', hskip, hstr⟩ := split_first_of_stream ser Z0 s1 S1 h2
+    have hs1 : s1.serial = ser := by
+      have : s1 ∈ stream ser Z0 := by rw [h2]; simp
+      simp only [stream, List.mem_filter, decide_eq_true_eq] at this
+      exact this.2
+    obtain ⟨m1, post, e1, e2, e3, e4, e5, e6⟩ := ih (s1 :: Y') s1 Y' rfl hs1
+      (by simp only [stream, List.filter_cons, hs1, decide_true, ↓reduceIte]; rw [hS1]; congr 1)
+      (fun p hp => ho p (by simp [hp]))
+    refine ⟨(z0, skip) :: m1, post, ?_, by simp [e2], ?_, ?_, e5, ?_⟩
+    · rw [hY', slotPages_cons, e1]; simp [List.append_assoc]
+    · cases m1 with
+      | nil => exact absurd e3 (by simp [Chain])
+      | cons t m' => exact ⟨ho z0 (by simp), e3⟩
+    · intro s hs p hp
+      simp only [List.mem_cons] at hs
+      rcases hs with rfl | hs
+      · exact ⟨by rw [hY']; simp [hp], hskip p hp⟩
+      · have := e4 s hs p hp
+        exact ⟨by rw [hY']; simp; right; right; simpa using this.1, this.2⟩
+    · intro p hp
+      have := e6 p hp
+      rw [hY']; simp; right; right; simpa using this
+
+
+/-! ### the second save: the first save's output as a layout again -/
+
+theorem fitPages_head (k : Nat) (hk : 0 < k) (p : Page) (r : List Page) : ∃ x ds, fitPages k (p :: r) = (p :: x) :: ds := by
+  unfold fitPages
+  split
+  · exact ⟨[], _, rfl⟩
+  · by_cases h1 : k = 1
+    · subst h1; exact ⟨r, [], by simp⟩
+    · obtain ⟨j, rfl⟩ : ∃ j, k = j + 2 := ⟨k - 2, by omega⟩
+      exact ⟨[], _, rfl⟩
+
+/-- the codec finds the new first page where it found the old one -/
+theorem startOK_transfer (c : Codec) (hc : c ≠ .flac) (pre : List Page) (c1 y : Page) (hser : y.serial = c1.serial)
+    (hmag : c ≠ .speex → startsWith c.commentPrefix y = true) (h : StartOK c pre c1) : StartOK c pre y := by
+  cases c with
+  | flac => exact absurd rfl hc
+  | vorbis =>
+    obtain ⟨p1, hd, p2, e, a1, a2, a3, a4, _⟩ := h
+    exact ⟨p1, hd, p2, e, a1, a2, a3, by rw [hser]; exact a4, hmag (by decide)⟩
+  | theora =>
+    obtain ⟨p1, hd, p2, e, a1, a2, a3, a4, _⟩ := h
+    exact ⟨p1, hd, p2, e, a1, a2, a3, by rw [hser]; exact a4, hmag (by decide)⟩
+  | opus =>
+    obtain ⟨p1, hd, p2, e, a1, a2, a3, a4, a5, a6, a7, _⟩ := h
+    exact ⟨p1, hd, p2, e, a1, a2, a3, a4, a5, a6, by rw [hser]; exact a7, hmag (by decide)⟩
+  | speex =>
+    obtain ⟨p1, hd, p2, e, a1, a2, a3, a4⟩ := h
+    exact ⟨p1, hd, p2, e, a1, a2, a3, by rw [hser]; exact a4⟩
+
+/-- the first closed page of the stream behind the edit is one of the new pages -/
+theorem closed_in_prepare (c : Codec) (L : Layout) (h : L.OK c) (hs : L.StreamOK) (old0 new0 : Bytes) (others : List Bytes)
+    (new : List Page) (hpk : toPackets L.oldPages false = .ok (old0 :: others))
+    (hf : NewFacts L (new0 :: others) new) : ∃ p ∈ prepare L.c1 L.cK new, closed p = true := by
+  have hne : L.slots ≠ [] := by intro he; have := h.chain; rw [he] at this; exact this
+  have hprep_ne : prepare L.c1 L.cK new ≠ [] := by
+    intro he; have := length_prepare L.c1 L.cK new; rw [he] at this
+    exact hf.ne (List.eq_nil_of_length_eq_zero this.symm)
+  apply Classical.byContradiction
+  intro hno
+  have hopen : ∀ p ∈ prepare L.c1 L.cK new, closed p = false := by
+    intro p hp
+    cases hcp : closed p with
+    | false => rfl
+    | true => exact absurd ⟨p, hp, hcp⟩ hno
+  have hcont : contOK false (prepare L.c1 L.cK new) := by
+    have := (contOK_prepare L.c1 L.cK new hf.ne hf.cont hf.lastpk).1
+    rw [hs.fresh] at this; exact this
+  have hlen := reasm_all_open _ hprep_ne hcont hopen
+  rw [carries_of new _ L.c1 L.cK hf.carries hf.fresh hf.head] at hlen
+  simp only [List.nil_append, List.length_cons] at hlen
+  have hothers : others = [] := List.eq_nil_of_length_eq_zero (by omega)
+  -- the last new page is open, so the old last page was incomplete and held two packets
+  obtain ⟨l, hl⟩ : ∃ l, (prepare L.c1 L.cK new).getLast? = some l := by
+    cases hg : (prepare L.c1 L.cK new).getLast? with
+    | none => simp at hg; exact absurd hg hprep_ne
+    | some l => exact ⟨l, rfl⟩
+  have hlc := last_prepare_complete L.c1 L.cK new hf.ne hf.cont hf.lastpk l hl
+  have hlo := hopen l (List.mem_of_getLast? hl)
+  simp only [closed, Bool.or_eq_false_iff] at hlo
+  rw [hlc] at hlo
+  obtain ⟨i, hi⟩ := oldPages_snoc L hne
+  have hcl := chain_last_closed L.slots h.chain i L.cK hi
+  simp only [closed, hlo.1, Bool.false_or, decide_eq_true_eq] at hcl
+  have hold : reasm [] L.oldPages = old0 :: others := (toPackets_ok _ _ _ (head_oldPages L hne) hs.fresh hpk).symm
+  have := length_reasm_ge_last [] i L.cK
+  rw [← hi, hold, hothers] at this
+  simp at this; omega
+
+/-- the output of a save is a well-formed, tidy layout again: same pages in front, the run of the
+second save is the new pages up to the first closed one, its first packet is the new comment packet -/
+theorem second_layout (c : Codec) (hc : c ≠ .flac) (L : Layout) (h : L.OK c) (hfresh : L.c1.continued = false)
+    (hflags : contOK false (stream L.serial L.pages))
+    (a : Nat) (hnum : (stream L.serial L.pages).map (·.sequence) = List.range' a (stream L.serial L.pages).length)
+    (hend : ∀ l, (stream L.serial L.pages).getLast? = some l → l.complete = true)
+    (old0 new0 : Bytes) (others : List Bytes) (new : List Page)
+    (hpk : toPackets L.oldPages false = .ok (old0 :: others))
+    (hnew : newPages c (new0 :: others) L.oldPages = .ok new)
+    (hseq : L.c1.sequence + new.length + (L.post.filter (·.serial = L.serial)).length ≤ 2 ^ 32)
+    (hprefix : c.commentPrefix <+: new0) :
+    ∃ L' : Layout, L'.pages = L.after new ∧ L'.OK c ∧ L'.StreamOK ∧ L'.Tidy ∧
+      ∃ ys, toPackets L'.oldPages false = .ok (new0 :: ys) := by
+  have hs := streamOK_of_contOK c L h hfresh hflags
+  have hf := facts_of_edit c L h hs old0 new0 others new hpk hnew
+  have hgood := (readAll_after c L h _ new hf hseq).1
+  have hne : L.slots ≠ [] := by intro he; have := h.chain; rw [he] at this; exact this
+  obtain ⟨opens, cl, rest, ys, hdec, hopen, hclosed, htp, hx, hcontS, hseqS⟩ :=
+    run_after c L h hfresh hflags a hnum hend old0 new0 others new hpk hnew hseq
+  generalize hT : stream L.serial (if L.slots.length ≠ new.length then renum L.serial (L.c1.sequence + new.length) L.post else L.post) = T at hdec
+  have hst := stream_after c L h new
+  rw [hT] at hst
+  -- the run ends inside the new pages
+  obtain ⟨o', c', r', he', ho', hc'⟩ := first_closed_of_mem _ (closed_in_prepare c L h hs old0 new0 others new hpk hf)
+  have huniq := first_closed_unique o' opens c' cl (r' ++ T) rest (by rw [← hdec, he']; simp) ho' hopen hc' hclosed
+  obtain ⟨rfl, rfl, _⟩ := huniq
+  -- the pages behind `pre`
+  generalize hZ : splicePages (fitPages L.slots.length (prepare L.c1 L.cK new)) L.slots ++
+      (if L.slots.length ≠ new.length then renum L.serial (L.c1.sequence + new.length) L.post else L.post) = Z
+  have hafter : L.after new = L.pre ++ Z := by rw [← hZ]; simp [Layout.after, List.append_assoc]
+  have hSZ : stream L.serial Z = o' ++ c' :: rest := by
+    have h1 : stream L.serial (L.after new) = stream L.serial L.pre ++ stream L.serial Z := by rw [hafter, stream_append]
+    rw [hst, List.append_assoc] at h1
+    rw [← hdec]; exact (List.append_cancel_left h1).symm
+  obtain ⟨y, X', hX⟩ : ∃ y X', o' ++ [c'] = y :: X' := by cases o' <;> simp
+  have hyprep : ∃ B, prepare L.c1 L.cK new = y :: (X' ++ B) := by
+    refine ⟨r', ?_⟩
+    rw [he', ← List.cons_append, ← hX]; simp
+  obtain ⟨B, hB⟩ := hyprep
+  have hymem : y ∈ prepare L.c1 L.cK new := by rw [hB]; simp
+  have hyser : y.serial = L.serial := serial_prepare L.c1 L.cK new y hymem
+  obtain ⟨Z0, hZ0⟩ : ∃ Z0, Z = y :: Z0 := by
+    cases hsl : L.slots with
+    | nil => exact absurd hsl hne
+    | cons s m =>
+      obtain ⟨x, ds, hfit⟩ := fitPages_head (s :: m).length (by simp) y (X' ++ B)
+      rw [← hZ, hsl, hB, hfit]
+      exact ⟨_, rfl⟩
+  obtain ⟨m, post, e1, e2, e3, e4, e5, e6⟩ := reslice L.serial o' c' rest Z y Z0 hZ0 hyser hSZ hopen hclosed
+  have hmemZ : ∀ p ∈ Z, Good p := fun p hp => hgood p (by rw [hafter]; simp [hp])
+  have hXmem : ∀ p ∈ o' ++ [c'], p ∈ Z ∧ p.serial = L.serial ∧ p ∈ prepare L.c1 L.cK new := by
+    intro p hp
+    have h1 : p ∈ stream L.serial Z := by
+      rw [hSZ]; simp only [List.mem_append, List.mem_cons, List.not_mem_nil, or_false] at hp ⊢
+      rcases hp with hp | hp
+      · exact Or.inl hp
+      · exact Or.inr (Or.inl hp)
+    have h2 : p ∈ prepare L.c1 L.cK new := by
+      rw [he']; simp only [List.mem_append, List.mem_cons, List.not_mem_nil, or_false] at hp ⊢
+      rcases hp with hp | hp
+      · exact Or.inl hp
+      · exact Or.inr (Or.inl hp)
+    simp only [stream, List.mem_filter, decide_eq_true_eq] at h1
+    exact ⟨h1.1, h1.2, h2⟩
+  -- the layout
+  let L' : Layout := ⟨L.pre, m, post⟩
+  have hold' : L'.oldPages = o' ++ [c'] := e2
+  have hc1' : L'.c1 = y := by show L'.oldPages.headD {} = y; rw [hold', hX]; rfl
+  have hcK' : L'.cK = c' := by show L'.oldPages.getLastD {} = c'; rw [hold']; simp
+  have hser' : L'.serial = L.serial := by show L'.c1.serial = L.serial; rw [hc1']; exact hyser
+  have hyhead : (o' ++ [c']).head? = some y := by rw [hX]; rfl
+  have hycont : y.continued = false := by
+    have : o' ++ c' :: rest = y :: (X' ++ rest) := by
+      have := congrArg (· ++ rest) hX
+      simpa [List.append_assoc] using this
+    rw [this] at hcontS; exact hcontS.1
+  refine ⟨L', ?_, ?_, ?_, ?_, ys, by rw [hold']; exact htp⟩
+  · show L.pre ++ slotPages m ++ post = L.after new
+    rw [hafter, e1, List.append_assoc]
+  · refine ⟨h.pre, ?_, e3, fun p hp => hmemZ p (e6 p hp), ?_⟩
+    · intro s hsm
+      have hs1 : s.1 ∈ o' ++ [c'] := by rw [← e2]; exact List.mem_map_of_mem hsm
+      have := hXmem s.1 hs1
+      refine ⟨hmemZ _ this.1, by rw [hser']; exact this.2.1, ?_⟩
+      intro p hp
+      have := e4 s hsm p hp
+      exact ⟨hmemZ p this.1, by rw [hser']; exact this.2⟩
+    · show StartOK c L.pre L'.c1
+      rw [hc1']
+      apply startOK_transfer c hc L.pre L.c1 y hyser _ h.start
+      intro hsp
+      obtain ⟨x, xs, hp, hcase⟩ := hx y hyhead
+      simp only [startsWith, hp, List.isPrefixOf_iff_prefix]
+      rcases hcase with rfl | ⟨hl, hpre'⟩
+      · exact hprefix
+      · exact List.prefix_of_prefix_length_le hprefix hpre' (by
+          have : c.commentPrefix.length ≤ 8 := by cases c <;> decide
+          omega)
+  · have hsplit := (contOK_append false o' (c' :: rest)).mp hcontS
+    refine ⟨by rw [hc1']; exact hycont, ?_, ?_⟩
+    · show contOK L'.c1.continued L'.oldPages
+      rw [hc1', hycont, hold']
+      exact (contOK_append false o' [c']).mpr ⟨hsplit.1, hsplit.2.1, hsplit.2.2.1, trivial⟩
+    · show contOK (!L'.cK.complete) (stream L'.serial post)
+      rw [hcK', hser', e5]; exact hsplit.2.2.2
+  · have hpfirst := first_prepare' L.c1 L.cK new hf.ne (fun p hp => (hf.dflt p hp).2.2.1)
+    have hplast := last_prepare' L.c1 L.cK new hf.ne (fun p hp => (hf.dflt p hp).2.2.2)
+    refine ⟨?_, ?_, ?_, ?_⟩
+    · intro o ho
+      rw [hold'] at ho
+      obtain ⟨q, hq, _, _, hfl, _⟩ := prepare_mem L.c1 L.cK new o (hXmem o ho).2.2
+      rw [hfl]; exact (hf.dflt q hq).2.1
+    · show L'.oldPages.map (·.sequence) = List.range' L'.c1.sequence L'.oldPages.length
+      rw [hold', hc1']
+      obtain ⟨b, hb⟩ := hseqS
+      have e : o' ++ c' :: rest = (o' ++ [c']) ++ rest := by simp
+      rw [e] at hb
+      have h1 := (range'_split _ _ _ _ hb).1
+      have hbe : y.sequence = b := by
+        rw [hX] at h1
+        simp only [List.map_cons, List.length_cons, List.range'_succ, List.cons.injEq] at h1
+        exact h1.1
+      rw [hbe]; exact h1
+    · intro o ho
+      rw [hold', hX, List.tail_cons] at ho
+      rw [hB, List.map_cons, List.cons.injEq] at hpfirst
+      have : o.first ∈ (X' ++ B).map (·.first) := List.mem_map_of_mem (by simp [ho])
+      rw [hpfirst.2] at this
+      exact List.eq_of_mem_replicate this
+    · intro o ho
+      rw [hold', List.dropLast_concat] at ho
+      have hmem : o ∈ (prepare L.c1 L.cK new).dropLast := by
+        rw [he', List.dropLast_append_of_ne_nil (by simp)]; simp [ho]
+      have : o.last ∈ ((prepare L.c1 L.cK new).dropLast).map (·.last) := List.mem_map_of_mem hmem
+      rw [List.map_dropLast, hplast, List.dropLast_concat] at this
+      exact List.eq_of_mem_replicate this
+
+
+/-- C07, two saves: when the second save builds the comment packet the first one wrote (`hfix`), it
+returns the first save's output byte for byte -/
+theorem save_twice (c : Codec) (hc : c ≠ .flac) (L : Layout) (h : L.OK c) (hfresh : L.c1.continued = false)
+    (hflags : contOK false (stream L.serial L.pages))
+    (a : Nat) (hnum : (stream L.serial L.pages).map (·.sequence) = List.range' a (stream L.serial L.pages).length)
+    (hend : ∀ l, (stream L.serial L.pages).getLast? = some l → l.complete = true)
+    (vc padData : Bytes) (pad : PadChoice) (old0 new0 : Bytes) (others : List Bytes) (new : List Page)
+    (hpk : toPackets L.oldPages false = .ok (old0 :: others))
+    (hnp : newPacket c old0 vc padData pad L.render.length = .ok new0)
+    (hnew : newPages c (new0 :: others) L.oldPages = .ok new)
+    (hseq : L.c1.sequence + new.length + (L.post.filter (·.serial = L.serial)).length ≤ 2 ^ 32)
+    (hfix : newPacket c new0 vc padData pad (renderPages (L.after new)).length = .ok new0) :
+    save c L.render vc padData pad = .ok (renderPages (L.after new)) ∧
+    save c (renderPages (L.after new)) vc padData pad = .ok (renderPages (L.after new)) := by
+  have hs := streamOK_of_contOK c L h hfresh hflags
+  refine ⟨(save_spec c L h hs vc padData pad old0 new0 others new hpk hnp hnew hseq).1, ?_⟩
+  obtain ⟨hd, tail, hshape, _, _, hpfx⟩ := newPacket_shape c old0 vc padData pad _ new0 (fun hf => absurd hf hc) hnp
+  have hprefix : c.commentPrefix <+: new0 := by
+    rw [hshape, (hpfx hc).1, List.append_assoc]; exact List.prefix_append _ _
+  obtain ⟨L', hpages, hok, hst, htidy, ys, htp⟩ := second_layout c hc L h hfresh hflags a hnum hend old0 new0 others new hpk hnew hseq hprefix
+  have hr : L'.render = renderPages (L.after new) := by unfold Layout.render; rw [hpages]
+  have := save_unchanged c hc L' hok hst htidy vc padData pad new0 ys htp (by rw [hr]; exact hfix)
+  rw [hr] at this; exact this
+
+
 end Mutagen.OggInj
